@@ -110,8 +110,10 @@ func (m *CPU) execute(app risc.Application, r risc.InstructionRunner, pc int32) 
 			memory = mem
 		} else {
 			m.cycle += latency.MemoryAccess
-			line := m.mmu.fetchCacheLine(addrs[0])
-			m.mmu.pushLineToL1D(comp.AlignedAddress(addrs[0]), line)
+			// Lines are aligned on their size: two lines never overlap
+			base := addrs[0] - addrs[0]%l1DCacheLineSize
+			line := m.mmu.fetchCacheLine(base)
+			m.mmu.pushLineToL1D(comp.AlignedAddress(base), line)
 			mem, exists := m.mmu.getFromL1D(addrs)
 			if !exists {
 				panic("cache line doesn't exist")
